@@ -68,18 +68,18 @@ type c18Thread struct {
 }
 
 type c18World struct {
-	mu      sync.Mutex
-	hy      hydra.Hydra
-	swName  name.Name
-	events  chan c18Event
-	passAll bool
-	threads map[int]*c18Thread
-	slots   []*hydra.SwampWaiter
-	insts   []swamp.Swamp // every instance seen in the swamps map, in construction order
+	mu        sync.Mutex
+	hy        hydra.Hydra
+	swName    name.Name
+	events    chan c18Event
+	passAll   bool
+	threads   map[int]*c18Thread
+	slots     []*hydra.SwampWaiter
+	insts     []swamp.Swamp // every instance seen in the swamps map, in construction order
 	destroyed map[int]bool
-	news    atomic.Int64
-	closed  atomic.Int64
-	broken  bool
+	news      atomic.Int64
+	closed    atomic.Int64
+	broken    bool
 }
 
 var c18BrokenCases int
@@ -328,7 +328,7 @@ func (w *c18World) cleanup() {
 			th.rel = nil
 		}
 	}
-	deadline := time.After(1500 * time.Millisecond)
+	deadline := time.After(HxScale(1500 * time.Millisecond))
 	for _, th := range w.threads {
 		if th.done == nil {
 			continue
@@ -461,7 +461,7 @@ func runC18(in *bufio.Scanner, out *bufio.Writer) {
 			select {
 			case <-fin:
 				fmt.Fprintf(out, "close ok %s\n", w.state())
-			case <-time.After(3 * time.Second):
+			case <-time.After(HxScale(3 * time.Second)):
 				w.timeout()
 				fmt.Fprintf(out, "close unexpected-timeout %s\n", w.state())
 			}
@@ -491,7 +491,7 @@ func runC18(in *bufio.Scanner, out *bufio.Writer) {
 			res := "ok"
 			select {
 			case <-fin:
-			case <-time.After(10 * time.Second):
+			case <-time.After(HxScale(10 * time.Second)):
 				w.timeout()
 				res = "unexpected-timeout"
 			}
@@ -525,7 +525,7 @@ func runC18(in *bufio.Scanner, out *bufio.Writer) {
 			}()
 			select {
 			case <-fin:
-			case <-time.After(3 * time.Second):
+			case <-time.After(HxScale(3 * time.Second)):
 				w.timeout()
 				res = "unexpected-timeout"
 			}
@@ -547,7 +547,7 @@ func runC18(in *bufio.Scanner, out *bufio.Writer) {
 					_, _ = w.hy.SummonSwamp(ctx, 1, w.swName)
 					close(th.done)
 				}(th)
-				if ev, ok := w.next(t, 3*time.Second); !ok || ev.name != "looked" {
+				if ev, ok := w.next(t, HxScale(3*time.Second)); !ok || ev.name != "looked" {
 					w.timeout()
 					res = "unexpected-" + ev.name
 				} else {
@@ -556,7 +556,7 @@ func runC18(in *bufio.Scanner, out *bufio.Writer) {
 			case th.stage == "looked":
 				close(th.rel)
 				th.rel = nil
-				if ev, ok, tail := w.await(t, 3*time.Second); !ok {
+				if ev, ok, tail := w.await(t, HxScale(3*time.Second)); !ok {
 					w.timeout()
 					res = "unexpected-timeout" + tail
 				} else {
@@ -568,7 +568,7 @@ func runC18(in *bufio.Scanner, out *bufio.Writer) {
 			case th.stage == "inside":
 				close(th.rel)
 				th.rel = nil
-				ev, ok, tail := w.await(t, 3*time.Second)
+				ev, ok, tail := w.await(t, HxScale(3*time.Second))
 				switch {
 				case !ok:
 					w.timeout()
@@ -587,7 +587,7 @@ func runC18(in *bufio.Scanner, out *bufio.Writer) {
 			case th.stage == "create":
 				close(th.rel)
 				th.rel = nil
-				if ev, ok, tail := w.await(t, 3*time.Second); !ok || ev.name != "leave.unready" {
+				if ev, ok, tail := w.await(t, HxScale(3*time.Second)); !ok || ev.name != "leave.unready" {
 					w.timeout()
 					res = "unexpected-" + ev.name + tail
 				} else {
@@ -596,7 +596,7 @@ func runC18(in *bufio.Scanner, out *bufio.Writer) {
 			case th.stage == "leave.unready":
 				close(th.rel)
 				th.rel = nil
-				if ev, ok := w.next(t, 3*time.Second); !ok || ev.name != "leave.dec" {
+				if ev, ok := w.next(t, HxScale(3*time.Second)); !ok || ev.name != "leave.dec" {
 					w.timeout()
 					res = "unexpected-" + ev.name
 				} else {
@@ -609,7 +609,7 @@ func runC18(in *bufio.Scanner, out *bufio.Writer) {
 				res = "kept"
 				select {
 				case <-th.done:
-				case <-time.After(3 * time.Second):
+				case <-time.After(HxScale(3 * time.Second)):
 					w.timeout()
 					res = "unexpected-timeout"
 				}
